@@ -566,6 +566,94 @@ def c06_11(ctx):
     return out
 
 
+def c06_12(ctx):
+    """MEMO: the message a signature is checked against is recomputed from the transaction as it is now -- a midstate kept from an
+    earlier call would let a signature made before an edit (amount, script, sequence, output) still verify afterwards (shared with C05.6)"""
+    from rules.C05 import c05_6
+    return c05_6(ctx)
+
+
+_MUTATORS = ("pop", "append", "insert", "extend", "remove", "clear", "sort", "reverse", "update", "setdefault", "popitem", "add", "discard")
+
+
+def c06_13(ctx):
+    """OWNERSHIP: Script.evaluate works on its own copies.  Every local that evaluate mutates (annex / control-block stripping pops
+    witness items, the command list is consumed) must be a copy of the transaction's data, never the transaction's own object:
+    otherwise evaluation edits the transaction it is judging before the signature hash is computed (an annex that no signature
+    commits to disappears from the witness and the spend verifies)"""
+    from sa.dataflow import rd_of
+    spec = "script:Script.evaluate"
+    mod, fn = rl.get(ctx, spec)
+    cfg = cfg_of(fn)
+    rd = rd_of(fn)
+    params = set(param_names(fn))
+    sites = []  # (node, local name, how)
+    for n in cfg.nodes:
+        if n.ast is None or n.kind not in ("stmt", "test", "return"):
+            continue
+        for x in ast.walk(n.ast):
+            base = None
+            how = None
+            if isinstance(x, ast.Call) and isinstance(x.func, ast.Attribute) and x.func.attr in _MUTATORS:
+                base, how = x.func.value, "." + x.func.attr + "()"
+            elif isinstance(x, (ast.Subscript, ast.Attribute)) and isinstance(getattr(x, "ctx", None), (ast.Store, ast.Del)):
+                base, how = x.value, "store"
+            if base is None:
+                continue
+            b = base
+            while isinstance(b, (ast.Attribute, ast.Subscript)):
+                b = b.value
+            if isinstance(b, ast.Name) and b.id not in params and b.id != "self":
+                sites.append((n, b.id, how, x))
+    out = []
+    judged = {}
+    for n, name, how, x in sites:
+        for d in rd.reaching(n.id, name):
+            g = rd.gen.get(d, {}).get(name)
+            if not g or g[0] != "val":
+                continue
+            v = g[1]
+            key = (name, d)
+            if key in judged:
+                continue
+            # value shapes: a fresh object / a copy are fine; a path into a parameter is an alias
+            alias = None
+            for part in ([v] if not isinstance(v, (ast.BoolOp, ast.IfExp)) else (v.values if isinstance(v, ast.BoolOp) else [v.body, v.orelse])):
+                p = part
+                copied = False
+                while True:
+                    if isinstance(p, ast.Call):
+                        copied = True
+                        break
+                    if isinstance(p, ast.Subscript) and isinstance(p.slice, ast.Slice):
+                        copied = True
+                        break
+                    if isinstance(p, (ast.Attribute, ast.Subscript)):
+                        p = p.value
+                        continue
+                    break
+                if not copied and isinstance(p, ast.Name) and (p.id in params or p.id == "self") and isinstance(part, (ast.Attribute, ast.Subscript)):
+                    alias = part
+            judged[key] = (alias, v, cfg.nodes[d])
+    for (name, d), (alias, v, dn) in sorted(judged.items(), key=lambda kv: kv[1][2].lineno):
+        if alias is not None:
+            muts = sorted({how for n, nm, how, x in sites if nm == name})
+            out.append(ctx.bad(spec, "`%s = %s` (line %d) makes `%s` the transaction's own object, and evaluate then changes it (%s): the transaction is edited while it is "
+                                     "being verified" % (name, ast.unparse(v)[:70], dn.lineno, name, ", ".join(muts)), dn.ast, mod, key="own-copy:" + name))
+        else:
+            out.append(ctx.ok(spec, "`%s` (mutated by evaluate) is a copy / fresh object: `%s`" % (name, ast.unparse(v)[:60]), dn.ast, mod, key="own-copy:%s:%d" % (name, 0)))
+    if not out:
+        raise AnalysisError("Script.evaluate: no mutated local found")
+    # de-duplicate ok entries per name
+    seen, res = set(), []
+    for r in out:
+        k = (r.status, r.msg)
+        if k not in seen:
+            seen.add(k)
+            res.append(r)
+    return res
+
+
 OBLIGATIONS = [
     ("C06.11", "RANGE accept-set", c06_11),
     ("C06.1", "GUARD per-iteration", c06_1),
@@ -578,5 +666,7 @@ OBLIGATIONS = [
     ("C06.8", "GUARD presence", c06_8),
     ("C06.9", "GUARD per-iteration", c06_9),
     ("C06.10", "TABLE", c06_10),
+    ("C06.12", "MEMO", c06_12),
+    ("C06.13", "OWNERSHIP", c06_13),
 ]
 FLOORS = {"C06.2": 9, "C06.3": 4, "C06.7": 3, "C06.9": 3, "C06.10": 10}
